@@ -283,6 +283,7 @@ var integer32 = []*instructionType{
 		},
 	}, {
 		name:         "slli",
+		shiftImmBits: 5,
 		opcode:       opcodeShiftImm(false, 5, 0b001, 0b0010011),
 		inputRegCnt:  1,
 		hasOutputReg: true,
@@ -292,6 +293,7 @@ var integer32 = []*instructionType{
 		},
 	}, {
 		name:         "srli",
+		shiftImmBits: 5,
 		opcode:       opcodeShiftImm(false, 5, 0b101, 0b0010011),
 		inputRegCnt:  1,
 		hasOutputReg: true,
@@ -301,6 +303,7 @@ var integer32 = []*instructionType{
 		},
 	}, {
 		name:         "srai",
+		shiftImmBits: 5,
 		opcode:       opcodeShiftImm(true, 5, 0b101, 0b0010011),
 		inputRegCnt:  1,
 		hasOutputReg: true,
@@ -504,6 +507,7 @@ var integer32 = []*instructionType{
 		},
 	}, {
 		name:         "csrrwi",
+		hasCSRImm:    true,
 		opcode:       opcode10(0b101, 0b1110011),
 		inputRegCnt:  0,
 		hasOutputReg: true,
@@ -518,6 +522,7 @@ var integer32 = []*instructionType{
 		},
 	}, {
 		name:         "csrrsi",
+		hasCSRImm:    true,
 		opcode:       opcode10(0b110, 0b1110011),
 		inputRegCnt:  0,
 		hasOutputReg: true,
@@ -534,6 +539,7 @@ var integer32 = []*instructionType{
 		},
 	}, {
 		name:         "csrrci",
+		hasCSRImm:    true,
 		opcode:       opcode10(0b111, 0b1110011),
 		inputRegCnt:  0,
 		hasOutputReg: true,
